@@ -22,7 +22,7 @@ TESTS = {
     "C10": [s1("TestC10_S1Loads", 40000, 250000, qshards=8), s1("TestC10_S2Waiters", 40000, 300000)],
     "C11": [s1("TestC11_S1Refresh", 40000, 250000, qshards=6), s1("TestC11_S1NoRefresh", 3000, 30000, qshards=1, tshards=4), s1("TestC11_S2InFlight", 30000, 250000), s1("TestC11_S2RefreshResults", 30000, 250000)],
     "C12": [s1("TestC12_S1Deadlines", 40000, 250000, qshards=8), s1("TestC12_S3Published", 6000, 100000, timeout_t=2400)],
-    "C13": [s1("TestC13_S1Sweep", 40000, 250000, qshards=6), s1("TestC13_ClockGate", 10000, 100000), s1("TestC13_S3Touches", 6000, 100000, timeout_t=2400), s1("TestC13_WheelModel", 30000, 500000)],
+    "C13": [s1("TestC13_S1Sweep", 40000, 250000, qshards=6), s1("TestC13_ClockGate", 10000, 100000), s1("TestC13_S3Touches", 6000, 100000, timeout_t=2400), s1("TestC13_WheelModel", 30000, 500000), s1("TestC13_MassSweep", 1000, 15000, qshards=2, tshards=8)],
     "C14": [s1("TestC14_DrainProtocol", 8000, 150000, qshards=8, timeout_t=2400), s1("TestC14_S4Rounds", 150, 3000, timeout_t=2400)],
     "C15": [s1("TestC15_SeqModel", 6000, 60000), s1("TestC15_Concurrent", 400, 4000, timeout_t=2400), s1("TestC15_CacheIteration", 200, 3000, timeout_t=2400), s1("TestC15_ChainSeq", 4000, 60000), s1("TestC15_ChainConcurrent", 300, 4000, timeout_t=2400)],
     "C16": [s1("TestC16_SeqModel", 15000, 150000), s1("TestC16_Concurrent", 250, 3000, timeout_t=2400), s1("TestC16_S3", 6000, 80000, timeout_t=2400), s1("TestC16_S1Burst", 800, 8000), s1("TestC16_S4Writes", 300, 3000, timeout_t=2400)],
